@@ -10,7 +10,7 @@ E2 = "chx"
 CHECKS = {
     "C01": dict(engine=E1, cat="translation_validation", sec="6 C01",
                 technique="symbolic execution of the clang-lowered generated Fex (LLVM IR -> z3 reals) + SMT equivalence with the mass-action law; sat answers replayed on the natively compiled emitted code",
-                text="For every corpus network and each of the four back-ends the compiled generated right-hand side is executed symbolically and z3 shows 'exists y,k,params: ydot[i] != mass-action reference' unsat for every slot (and the thermal row). All abundance vectors / rate values are covered by the solver; the network dimension is bounded by the enumerated corpus.",
+                text="For every corpus network and each of the four back-ends the compiled generated right-hand side is executed symbolically and z3 shows 'exists y,k,params: ydot[i] != mass-action reference' unsat for every slot (and the thermal row). All abundance vectors / rate values are covered by the solver; the network dimension is bounded by the enumerated corpus. The CUDA kernel is additionally run by one thread over two systems: the second system obeys the law with its own abundances, parameters and helper values.",
                 note="Trusted: clang++-14 lowering against declaration-only shims, the IR interpreter (cross-checked against g++ builds at random points every run), z3. Real arithmetic (no IEEE rounding). Networks outside the corpus are outside the claim."),
     "C02": dict(engine=E1, cat="translation_validation", sec="6 C02",
                 technique="dual-number symbolic execution of the compiled Fex gives d(ydot_i)/d(y_j) as z3 terms; SMT equivalence with every entry the compiled Jac stores (absent entries = 0); native 5-point-stencil replay",
@@ -18,12 +18,12 @@ CHECKS = {
                 note="As C01. 'Rate coefficients held fixed' = results of EvalRates/GetNumDens/GetMu/GetGamma have zero gradient. Particle density and k_B assumed non-zero."),
     "C03": dict(engine=E1, cat="translation_validation", sec="6 C03",
                 technique="symbolic execution with exactly-sized, bounds-checked memory objects; array-theory SMT queries (symbolic row/position) for CSR well-formedness; SMT equivalence of dense / odeint / CSR / cuSPARSE entries",
-                text="All memory accesses of Fex/Jac/EvalRates stay inside objects sized by the generated macros; the CSR arrays satisfy the well-formedness formula for a symbolic row and position; dense, odeint, sparse and cusparse Jacobians hold solver-equal terms at the same (row, col); the pattern file marks exactly the stored entries.",
+                text="All memory accesses of Fex/Jac/EvalRates stay inside objects sized by the generated macros; the CSR arrays satisfy the well-formedness formula for a symbolic row and position; dense, odeint, sparse and cusparse Jacobians hold solver-equal terms at the same (row, col); the pattern file marks exactly the stored entries; the cusparse driver (Naunet::Init / Reset, executed symbolically with recording stubs) keeps only block-CSR matrices of the declared shape that went through InitJac.",
                 note="As C01. Offsets are concrete in generated code, so bounds are decided exactly per project."),
     "C04": dict(engine=E1, cat="translation_validation", sec="6 C04",
-                technique="symbolic execution of compiled Fex + SMT: element- and charge-weighted sums of ydot are identically zero for enumerated balanced networks",
-                text="For exhaustively enumerated balanced reactions over four molecule pools (ions, both electron spellings, o/p labels, isotopologues, ice/gas pairs) z3 shows sum_s c_e(s)*ydot_s != 0 unsat for each element and for charge, for all y and k, on all back-ends.",
-                note="As C01. Element counts and charges of species are taken from the generator's own Species objects (their correctness is C08's subject)."),
+                technique="symbolic execution of compiled Fex and GetElementAbund + SMT: element- and charge-weighted sums of ydot are identically zero for enumerated balanced networks, and the library's element totals are the count-weighted sums, with weights from a hand-written composition table",
+                text="For exhaustively enumerated balanced reactions over six molecule pools (ions, both electron spellings, o/p labels, isotopologues, ice/gas pairs, grains in several charge states, multiply charged anions, formulas repeating an element symbol), API-built and written in each of the five input formats, z3 shows sum_s c_e(s)*ydot_s != 0 unsat for each element and for charge, for all y and k, on all back-ends; GetElementAbund(ab, e) != sum_s c_e(s)*ab_s is unsat for all ab.",
+                note="As C01. Compositions come from the corpus' own table (vf/corpus_balanced.py), not from the generator's name parser."),
     "C05": dict(engine=E1, cat="translation_validation", sec="6 C05",
                 technique="symbolic execution of the compiled EvalRates (floating literals lifted to exact-valued externs so nothing is constant-folded) + SMT equivalence with each database's rate law, libm as uninterpreted functions; native libm replay",
                 text="For reaction files written by independent format encoders (KIDA, UMIST, Leeds, UCLCHEM, native) with one reaction per type code x sign class of (alpha,beta,gamma) x literal shape, z3 shows 'exists T, Av, zeta, omega, G0...: k[i] assigned and != law' unsat; an emitted rate expression the real compiler rejects (operator fusion) is a violation.",
@@ -42,7 +42,7 @@ CHECKS = {
                 note="Selector enumeration by the solver, not symbolic strings (CrossHair's regex model is unreliable on this tokenizer; stated in DESIGN.md). Mass numbers from an independent table."),
     "C09": dict(engine=E2, cat="exploration", sec="6 C09",
                 technique="CrossHair-selected name pairs on the real Species.__eq__/__hash__/alias + per-project z3 Distinct/range queries over the index tables read back from every generated artefact (macros through the real preprocessor, Python constants via ast, TOML summary, Enzo patch header)",
-                text="For all ordered pairs of 40 names: equality, hash equality and alias equality coincide with species identity and every alias is a legal identifier; for four rendered projects the species and element macros are bijections onto 0..N-1 and agree with constant_indexes.py, the [summary] written by `naunet render`, and the A_ table of the Enzo patch.",
+                text="For all ordered pairs of 40 names: equality, hash equality and alias equality coincide with species identity and every alias is a legal identifier; for four rendered projects the species and element macros are bijections onto 0..N-1 and agree with constant_indexes.py, the [summary] written by `naunet render`, the A_ table of the Enzo patch (rendered by a separate interpreter run under another string-hash seed) and the per-species fields of every other patch file.",
                 note="Per-project obligations are ground facts (stated as such); names and identity classes are a fixed table."),
     "C14": dict(engine=E2, cat="exploration", sec="6 C14",
                 technique="CrossHair symbolic execution (z3) of the real Network add/remove/allowed-species/source-sink logic on stub species with symbolic integer identities (all paths), plus solver-selected operation sequences on real reactions compared with an explicit model; the extend command is driven for real and compared with the same model",
@@ -54,7 +54,7 @@ CHECKS = {
                 note="Bounded list lengths and pools; CrossHair's own soundness; string modes compare printed names by documentation."),
     "C16": dict(engine=E1, cat="translation_validation", sec="6 C16",
                 technique="symbolic execution of the compiled InitRenorm / RenormAbundance / GetElementAbund / GetHNuclei + SMT (non-linear real arithmetic): with the linear solve as the constraint A(ab) r = b, element totals after renormalisation equal reference ratio x hydrogen nuclei for all ab > 0",
-                text="For networks with multi-element molecules, ions, isotopologues/ortho-para species, ice species and dust grains: z3 shows for all positive abundances and all solutions r that every element total after RenormAbundance is b_i*H, that H is preserved when b_H=1, that electrons are untouched, that GetElementAbund is the count-weighted sum, that A(ab)*1 is the current ratio vector and every factor is 1 at r=1 (identity), and that no term divides by the literal 0.0.",
+                text="For networks with multi-element molecules, ions, isotopologues/ortho-para species, ice species and dust grains: z3 shows for all positive abundances and all solutions r that every element total after RenormAbundance is b_i*H, that H is preserved when b_H=1, that electrons are untouched, that GetElementAbund is the count-weighted sum, that A(ab)*1 is the current ratio vector and every factor is 1 at r = 1; at class level Naunet::Renorm (aliasing-aware stubs) solves with the stored reference as right-hand side, hands the solution to RenormAbundance and leaves the stored reference unchanged, SetReferenceAbund stores ref_i/ref_H resp. E_i/H at r=1 (identity), and that no term divides by the literal 0.0.",
                 note="The LU/SUNLinSol solve is modelled by its defining equation; nonsingular A assumed for uniqueness; real arithmetic; elements are the atomic species present (generator's definition)."),
     "C10": dict(engine="cfgsat", cat="other", sec="6 C10",
                 technique="real compiler front end (clang++-14 name resolution) on every emitted translation unit of a configuration matrix; thorough: z3 model of the symbol registry (read from the real component classes) solved for mixtures/orders with use-before-declaration, each SAT mixture rendered and compiled",
@@ -63,27 +63,27 @@ CHECKS = {
     "C11": dict(engine=E1, cat="translation_validation", sec="6 C11",
                 technique="symbolic execution of the compiled EvalRates (exact literals, libm uninterpreted) for Leeds- and UCLCHEM-format grain reactions under each dust model + SMT equivalence with independently written Hasegawa-Herbst / Roberts et al. formulae; native libm replay; unsupported (model, process) pairs must be refused",
                 text="For accretion (neutral / ion / electron), thermal, cosmic-ray, photo and H2-formation desorption, grain recombination and electron capture under hh93, hh93i, rr07, rr07x and species CO, H2O, CH4, C, H, C+, H3O+, e- (RATE12 and user-supplied binding energies and yields) z3 shows 'exists physical parameters: k[i] assigned and != law' unsat; models asked for a process they do not implement refuse at generation time.",
-                note="Mass numbers and binding energies are read independently; physical constants as the project defines them; surface two-body and reactive desorption are outside the encoded set; GetMantleDens opaque."),
+                note="Mass numbers and binding energies are read independently; physical constants as the project defines them; GetMantleDens opaque; constants inside libm calls are identified up to double rounding (the generator prints quotients such as E_b/A as one literal)."),
     "C12": dict(engine=E1, cat="translation_validation", sec="6 C12",
                 technique="the real Fortran->C translator's output is compiled (exact literals) and executed symbolically; z3 compares it, for all variable values, with the term an independent Fortran-semantics reader builds from the input text (libm uninterpreted); sat answers replayed natively with real libm",
                 text="For expressions derived from the translator's own grammar to depth 3 (+ - * / ** parentheses, exp/sqrt/log, integer/real/d-exponent literals, KROME variables, user @common variables, n(idx_X)) and every rate expression of the bundled KROME networks: accepted expressions are value-equal to Fortran semantics and each n(idx_X) resolves to that species' abundance slot, or the expression is rejected at generation time.",
-                note="Chained ** (left-associated) and multi-character / electron idx names are recorded known findings. Fortran semantics per the standard; integer**negative integer and intrinsics beyond exp/sqrt/log/log10 are outside the generated set."),
+                note="Chained ** (left-associated) and multi-character / electron idx names are recorded known findings. Fortran semantics per the standard; integer**negative integer and hand-written expressions cover the trigonometric / hyperbolic intrinsics and their inverses and the d-prefixed specific names."),
     "C13": dict(engine=E1, cat="translation_validation", sec="6 C13",
                 technique="differential symbolic execution: compiled EvalRates/Fex of the project with modifiers vs. the plain project vs. the modifier text (exact arithmetic reader), SMT equivalence per reaction and species; API path and init->TOML->render path compared",
                 text="For rate-modifier sets (index present / absent / shared by two reactions / index 0 / negative and compound values / unindexed network re-indexed by joining order) z3 shows k[i] equals the modifier value exactly for the reactions carrying the key and equals the unmodified rate (guard included) for all others; for ODE-modifier sets (1-3 dependencies, repeated, signed/compound factors) ydot differs from the plain project by exactly factor x product on the target species; the project rendered through the configuration file is term-equivalent to the API rendering.",
                 note="Modifier expressions are arithmetic over parameters; one 6-reaction KIDA network and one unindexed API network; all parameters, abundances and rate values symbolic."),
     "C20": dict(engine=E1, cat="translation_validation", sec="6 C20",
                 technique="differential symbolic execution of the project rendered by `naunet init`+`naunet render` (real CLI, real TOML) against the project rendered through Network(...) for the requested description: SMT equivalence of every rate coefficient and derivative, ground equality of macro tables and TOML fields; CrossHair symbolic execution of InitCommand.handle on symbolic option strings",
-                text="For the bundled examples (minimal, primordial, empty; deuterium and cloud in thorough) and option-value classes (blanks around separators in lists and key=value tables, extra species, modifiers, binding energies and yields, non-default symbols) the configuration file records what was requested and the command-line rendering is equivalent for all inputs to the API rendering.",
+                text="For the bundled examples (minimal, primordial, empty; deuterium and cloud in thorough) and option-value classes (blanks around separators in lists and key=value tables, extra species, modifiers, binding energies and yields, non-default symbols) the configuration file records what was requested and the command-line rendering is equivalent for all inputs to the API rendering; Network.export for dense / sparse / odeint records the requested solver selection and re-renders to the same back-end with equal right-hand sides.",
                 note="End-to-end cases are enumerated option classes; the option parser itself is additionally executed by CrossHair on symbolic strings of <=4 characters; prompts are not exercised; `ism` needs an external file."),
     "C18": dict(engine=E1, cat="translation_validation", sec="6 C18",
                 technique="ground field-wise comparison of two native write/read cycles + differential symbolic execution: compiled EvalRates/Fex of the direct rendering vs. Network.export re-rendered by `naunet render` in the exported directory, SMT equivalence for all parameter values, native replay of every sat answer",
                 text="For networks read from every input format (encoder-written files with every gas-phase type code, bundled fixtures, an API network) two write/read cycles in the native format reproduce reactants/products, window, type, index and coefficients to the printed precision; the exported project re-rendered from its own files has term-equivalent rate coefficients and derivatives or is refused.",
-                note="Seven (format, type code) pairs where export silently changes the law are recorded in known_findings.json; KROME reactions carry text rates and are refused on re-render (allowed). One back-end (cvode dense)."),
+                note="Seven (format, type code) pairs where export silently changes the law are recorded in known_findings.json; a Leeds ice network cannot be read back natively (known finding); KROME reactions carry text rates and are refused on re-render (allowed). One back-end (cvode dense)."),
     "C19": dict(engine=E1, cat="model_checking", sec="6 C19",
                 technique="bounded model checking of the compiled Solve/HandleError IR with a nondeterministic integrator stub (symbolic flags and partial times, merged states) + one SMT-discharged inductive step per recovery level (loop back edge cut); scripted-mock native replay",
                 text="Every fault sequence over the recovery ladder is covered by (base) Solve up to HandleError establishes the invariant, (step) from any invariant state one level either returns SUCCESS with exactly y0+dt, returns FAIL, or re-establishes the invariant, with every flag an arbitrary integer and every partial time an arbitrary real; plus end-to-end monolithic queries and concrete-flag/symbolic-time scripts through all five levels; odeint Observer and Solve are decided on their compiled IR.",
-                note="Integrator contract is an assumption (state = exact solution at the returned time); pow/log10 are uninterpreted with round-trip and monotonicity axioms; 2-equation project (the ladder does not depend on the network); cusparse Solve and the PyWrapSolve wrappers are outside the encoded set."),
+                note="Integrator contract is an assumption (state = exact solution at the returned time); pow/log10 are uninterpreted with round-trip and monotonicity axioms; 2-equation project (the ladder does not depend on the network); the return value of every scripted run must equal an independent model of the documented ladder; odeint: the observer handed to the integrator carries the current step budget in the first and in a second Solve call; cusparse Solve is outside the encoded set."),
 }
 
 NOT_APPLICABLE = {
